@@ -65,6 +65,7 @@ type Addr struct {
 	Path string     // ACell: static sub-path ".0.3"
 	I    *T         // AElem or ACell-array: index term
 	G    *ssa.Global
+	Lit  bool // ARef to the backing array of a slice literal that lives in the element heap e:<T>
 }
 
 type Cell struct {
